@@ -291,6 +291,8 @@ namespace hv
             if (shape == "TSB") return wire<CWriter, B2h>(w, Int{id}).erased();
             if (shape == "TSL") return wire<CWriter, TSL<TS<Int>, 3>>(w, Int{id}).erased();
             if (shape == "TSDD") return wire<CWriter, TSD<Int, D>>(w, Int{id}).erased();
+            if (shape == "TSLB") return wire<CWriter, TSL<B2h, 2>>(w, Int{id}).erased();
+            if (shape == "TSLS") return wire<CWriter, TSL<TSS<Int>, 2>>(w, Int{id}).erased();
             throw std::invalid_argument("higher_order: unsupported writer shape " + shape);
         }
 
@@ -327,6 +329,15 @@ namespace hv
                         else out = wire<stdlib::map_>(w, f, d);
                         ps.ref[id]   = out.as<D>().erased();
                         ps.shape[id] = "TSD";
+                    }
+                    else if (k == "elem")
+                    {   // elem <id> <list writer id> idx=<i>: element i of a TSL<B2,2> / TSL<TSS,2> writer as a port of its own (two
+                        // positions inside one producing output: targets of one selection that share their owning output)
+                        long long id  = std::stoll(st.tok.at(1));
+                        long long src_id = std::stoll(st.tok.at(2));
+                        const size_t idx = static_cast<size_t>(st.geti("idx", 0));
+                        if (ps.shape.at(src_id) == "TSLB") { Port<TSL<B2h, 2>> l{w, ps.ref.at(src_id)}; ps.ref[id] = tsl_element(l, idx).erased(); ps.shape[id] = "TSB"; }
+                        else { Port<TSL<TSS<Int>, 2>> l{w, ps.ref.at(src_id)}; ps.ref[id] = tsl_element(l, idx).erased(); ps.shape[id] = "TSS"; }
                     }
                     else if (k == "chain")
                     {   // chain <id> src=<id> n=<k>: k AddOne nodes in a row over a TS<Int> producer (a producer of some depth)
